@@ -217,9 +217,19 @@ func rpNewSigner(name string) (s *rpSigner) {
 		s.keys = []*account.Account{acct}
 		s.verify = rpSingleProgram(pubk, false)
 		s.addrA = types.AddressFromPubKey(pubk)
-	case "multi23", "multi23-rev", "multi23-mixed":
-		ks := []*account.Account{rpAcct(""), rpAcct(""), rpAcct("")}
-		if name == "multi23-mixed" {
+	default:
+		// "multi<m><n>[-rev|-mixed]": m-of-n multi-signature; -rev lists the keys in non-sorted order in the raw script,
+		// -mixed uses an Ed25519 key among P-256 keys
+		var m, n int
+		var suffix string
+		if k, _ := fmt.Sscanf(name, "multi%1d%1d%s", &m, &n, &suffix); k < 2 || m < 1 || m > n || n < 2 || n > 3 {
+			panic("unknown signer variant " + name)
+		}
+		var ks []*account.Account
+		for i := 0; i < n; i++ {
+			ks = append(ks, rpAcct(""))
+		}
+		if suffix == "-mixed" {
 			ks[1] = rpAcct("SHA512withEdDSA")
 		}
 		sorted := keypair.SortPublicKeys(pub(ks))
@@ -231,16 +241,14 @@ func rpNewSigner(name string) (s *rpSigner) {
 				}
 			}
 		}
-		if name == "multi23-rev" {
-			ordered[0], ordered[2] = ordered[2], ordered[0]
+		if suffix == "-rev" {
+			ordered[0], ordered[n-1] = ordered[n-1], ordered[0]
 		}
-		s.keys, s.m = ordered, 2
-		s.verify = rpMultiProgram(pub(ordered), 2)
-		a, err := types.AddressFromMultiPubKeys(pub(ordered), 2)
+		s.keys, s.m = ordered, m
+		s.verify = rpMultiProgram(pub(ordered), m)
+		a, err := types.AddressFromMultiPubKeys(pub(ordered), m)
 		vhMust(err)
 		s.addrA = a
-	default:
-		panic("unknown signer variant " + name)
 	}
 	s.addrB = common.AddressFromVmCode(s.verify)
 	return s
